@@ -46,6 +46,12 @@ try:
     m = json.load(open(src))
 except Exception:
     m = {}
+# keep the verdict of the FIRST run against the registered check (before any strengthening)
+try:
+    prev = json.load(open(dst))
+    m['first_verdict'] = prev.get('first_verdict') or prev.get('confirmed', {}).get('checks_run')
+except Exception:
+    pass
 m['confirmed'] = {
     'demo_rc_clean_tree': int(rc_clean), 'demo_rc_with_change': int(rc_mut),
     'baseline_609_with_change': 'all pass (tools/baseline.py, fast mode)',
